@@ -52,6 +52,15 @@ class Tag:
         return Tag(self.i, copy.deepcopy(self.v, memo))
 
 
+class UTag(Tag):
+    """an element that cannot be hashed (a list, a dict, a dataclass with eq=True ...): still a perfectly good population item"""
+
+    __hash__ = None
+
+    def __deepcopy__(self, memo):
+        return UTag(self.i, copy.deepcopy(self.v, memo))
+
+
 _vals = st.one_of(st.integers(-5, 5), st.text(max_size=3), st.none(), st.floats(allow_nan=False, width=16), st.booleans())
 _w = st.one_of(st.integers(0, 1000), st.sampled_from([0, 0, 0.0, 0.5, 1.5, 2.25, 1e-9, 1e9, 3, 0.1, 0.7]),
                st.floats(min_value=1e-9, max_value=1e9, allow_nan=False))
@@ -66,6 +75,7 @@ def good(draw):
     return {"kind": "good", "id": draw(st.one_of(st.text(alphabet=st.characters(exclude_categories=["Cs"]), max_size=20), st.none(),
                                              st.sampled_from(EXTREME_IDS + ["", "0", " "]))),
             "pop": [draw(_vals) for _ in range(n)], "tuple": draw(st.booleans()), "ws": ws,
+            "unhashable": draw(st.integers(0, 3)) == 0, "wtuple": draw(st.integers(0, 2)) == 0,
             "c": draw(st.integers(1, max(1, (2 ** 20 - 1) // n))), "seed": draw(st.integers(0, 2 ** 32))}
 
 
@@ -78,11 +88,11 @@ def bad(draw):
     kind = draw(st.sampled_from(["both", "long", "short", "zero", "negative", "nan", "inf", "long-cum", "short-cum", "zero-cum",
                                  "neg-cum", "inf-cum"]))
     return {"kind": kind, "id": draw(st.text(max_size=8)), "pop": [draw(_vals) for _ in range(n)], "tuple": draw(st.booleans()),
-            "ws": ws}
+            "ws": ws, "unhashable": draw(st.integers(0, 3)) == 0, "wtuple": draw(st.integers(0, 2)) == 0}
 
 
 def _pop(case):
-    items = [Tag(i, v) for i, v in enumerate(case["pop"])]
+    items = [(UTag if case.get("unhashable") else Tag)(i, v) for i, v in enumerate(case["pop"])]
     return tuple(items) if case["tuple"] else items
 
 
@@ -107,6 +117,12 @@ def judge(case):
         uid = case["id"]
         cum = list(itertools.accumulate(ws))
         ws_arg, cum_arg = list(ws), list(cum)
+        if case.get("wtuple"):
+            # any sequence will do for the weights, as for random.choices: here tuples
+            ws_arg, cum_arg, ws, cum = tuple(ws), tuple(cum), tuple(ws), tuple(cum)
+            tags.append("weights-as-tuple")
+        if case.get("unhashable"):
+            tags.append("unhashable-elements")
         positive = sum(1 for w in ws if w > 0)
         tags.append("id:none" if uid is None else "id:text")
         if any(w == 0 for w in ws):
@@ -124,7 +140,7 @@ def judge(case):
                     viol.append("zero-weight item #%d selected for id %r weights %r" % (a.i, uid, ws))
                 c = case["c"]
                 u = dc(uid, pop)
-                e = dc(uid, pop, [c] * n)
+                e = dc(uid, pop, (c,) * n if case.get("wtuple") else [c] * n)
                 if not _is_elem(u, pop) or u is not e:
                     viol.append("no weights gave #%s, equal integer weights %d gave #%s (n=%d, id=%r)"
                                 % (getattr(u, "i", u), c, getattr(e, "i", e), n, uid))
@@ -132,7 +148,7 @@ def judge(case):
                 if n >= 2:
                     buf = list(ws)
                     dc(uid, pop, buf)
-                    other = ws[1:] + ws[:1]
+                    other = list(ws[1:] + ws[:1])
                     if sum(other) > 0:
                         buf[:] = other
                         r_inplace = dc(uid, pop, buf)
@@ -207,6 +223,9 @@ def judge(case):
             kw = {"cum_weights": [-1.0] * n}
         elif kind == "inf-cum":
             kw = {"cum_weights": cum[:-1] + [float("inf")]}
+        if case.get("wtuple"):
+            kw = {k: tuple(v) for k, v in kw.items()}
+            tags.append("weights-as-tuple")
         kw0 = copy.deepcopy(kw)
         if kind in ("long", "short", "long-cum", "short-cum"):
             # warm-up: the very same weights are valid for a population of matching length; a validation result remembered
